@@ -16,7 +16,8 @@ use crate::ring_like::digest;
 #[cfg(feature = "pem")]
 use crate::ENCODE_CONFIG;
 use crate::{
-	oid, write_distinguished_name, write_dt_utc_or_generalized,
+	check_distinguished_name, check_ia5, check_oid, oid, write_distinguished_name,
+	write_dt_utc_or_generalized,
 	write_x509_authority_key_identifier, write_x509_extension, DistinguishedName, Error, Issuer,
 	KeyIdMethod, KeyPair, KeyUsagePurpose, SanType, SerialNumber,
 };
@@ -604,6 +605,8 @@ impl CertificateParams {
 		{
 			return Err(Error::UnsupportedInCsr);
 		}
+		self.check_encodable()?;
+		attrs.iter().try_for_each(|attr| check_oid(attr.oid))?;
 
 		// Whether or not to write an extension request attribute
 		let write_extension_request = !key_usages.is_empty()
@@ -644,11 +647,44 @@ impl CertificateParams {
 		})
 	}
 
+	/// Checks the values that the serializer would otherwise panic on: object identifiers
+	/// and the plain strings that are written as IA5String
+	fn check_encodable(&self) -> Result<(), Error> {
+		check_distinguished_name(&self.distinguished_name)?;
+		for san in &self.subject_alt_names {
+			if let SanType::OtherName((oid, _)) = san {
+				check_oid(oid)?;
+			}
+		}
+		for usage in &self.extended_key_usages {
+			check_oid(usage.oid())?;
+		}
+		if let Some(name_constraints) = &self.name_constraints {
+			let subtrees = name_constraints.permitted_subtrees.iter();
+			for subtree in subtrees.chain(&name_constraints.excluded_subtrees) {
+				match subtree {
+					GeneralSubtree::Rfc822Name(name) | GeneralSubtree::DnsName(name) => {
+						check_ia5(name)?
+					},
+					GeneralSubtree::DirectoryName(name) => check_distinguished_name(name)?,
+					GeneralSubtree::IpAddress(_) => {},
+				}
+			}
+		}
+		for distribution_point in &self.crl_distribution_points {
+			distribution_point.uris.iter().try_for_each(|uri| check_ia5(uri))?;
+		}
+		self.custom_extensions
+			.iter()
+			.try_for_each(|ext| check_oid(&ext.oid))
+	}
+
 	pub(crate) fn serialize_der_with_signer<K: PublicKeyData>(
 		&self,
 		pub_key: &K,
 		issuer: Issuer<'_>,
 	) -> Result<CertificateDer<'static>, Error> {
+		self.check_encodable()?;
 		let der = issuer.key_pair.sign_der(|writer| {
 			let pub_key_spki =
 				yasna::construct_der(|writer| serialize_public_key_der(pub_key, writer));
